@@ -1,6 +1,7 @@
 """C03 write permission: theorems in coq/Props/PropC03.v; correspondence and monitor through the C03
 driver (harness/overlay/server/zz_verif_c03x_test.go = the topic-history driver plus topic deletion in
-two halves, user suspension, me/fnd/sys) and the extracted model coq/Sys/TopicLife.v over Sys/Topic.v."""
+two halves, user suspension, me/fnd/sys with subscribers, real peer-to-peer topics) and the extracted model
+coq/Sys/TopicLife.v over Sys/Topic.v."""
 import os
 import re
 import subprocess
@@ -640,6 +641,47 @@ def frame_f(t):
     return True
 
 
+def extra_cov(scns, impl):
+    """how often the implementation's trace visited the cases of the suspension test (non-vacuity of the laws)"""
+    c = {"suspensions_changing_state": 0, "of_owner_of_loaded_group": 0, "of_plain_member_of_loaded_group": 0,
+         "of_party_of_loaded_p2p": 0, "of_non_party_with_loaded_p2p": 0, "of_sys_subscriber": 0,
+         "sys_publishes_while_a_subscriber_is_suspended": 0, "p2p_publishes_202": 0, "p2p_publishes_403_read_only": 0,
+         "p2p_publishes_403_other": 0, "p2p_publishes_409": 0}
+    for sc in scns:
+        px = pv = None
+        for k, b in enumerate(impl.get(sc.id, [])):
+            v = statelib.View(b)
+            x = X(v)
+            fault, kind, args = sc.ops[k]
+            if px is not None and kind == "suspend" and fault[0] != "C":
+                u = int(args[0])
+                if (u in x.susp) != (u in px.susp):
+                    c["suspensions_changing_state"] += 1
+                    if pv.loaded and pv.cache.get("owner") == u:
+                        c["of_owner_of_loaded_group"] += 1
+                    elif pv.loaded and u in pv.cusers:
+                        c["of_plain_member_of_loaded_group"] += 1
+                    for p in px.p2p.values():
+                        if p["loaded"]:
+                            c["of_party_of_loaded_p2p" if u in p["users"] else "of_non_party_with_loaded_p2p"] += 1
+                    if u in px.syssubs:
+                        c["of_sys_subscriber"] += 1
+            if px is not None and kind == "pubsys" and px.syssubs & px.susp:
+                c["sys_publishes_while_a_subscriber_is_suspended"] += 1
+            if px is not None and kind == "p2ppub":
+                mine = [t for s, t in v.frames if s == args[0] and t.startswith("ctrl ")]
+                code = mine[0].split()[1] if mine else "-"
+                p = px.p2p.get(args[1])
+                if code == "202":
+                    c["p2p_publishes_202"] += 1
+                elif code == "403":
+                    c["p2p_publishes_403_read_only" if p and p["ro"] else "p2p_publishes_403_other"] += 1
+                elif code == "409":
+                    c["p2p_publishes_409"] += 1
+            px, pv = x, v
+    return {"suspension_cases_visited": c}
+
+
 def line_f(kind, l):
     if kind == "store":
         if l.startswith("sub "):
@@ -665,9 +707,11 @@ def run(ctx):
         ctx, [("msg", 0.0, 0.17), ("perm", 0.0, 0.17), ("perm", 0.1, 0.1), ("permfault", 0.0, 0.28), ("life", 0.0, 0.28)],
         lambda sc, views: monitor(sc, views, known_hit),
         dict(ops=set(PUB_KINDS), frame=frame_f, line=line_f, keys=("frames", "store", "cache")),
-        rule="seeded random histories over one group topic plus me/fnd/sys: authors = owner, members, muted, write-less (want or given without W), banned, removed, never subscribed; publishes preceded by subscribe/set-sub/del-sub/leave histories (arbitrary mode strings) with Fail k / Crash k at every adapter-call position of the permission requests, unload/restart; the owner's {del topic} held open inside store.Topics.Delete (memverif call hook) with publishes dispatched meanwhile; suspension/resumption of the owner; publishes to me/fnd (attached or not) and sys (never attached); non-trivial = at least one accepted mutating request",
-        trusted=["projection compared for C03: every frame of a publish request (group topic, me, fnd, sys), the stored rows and the cached modes/lastID after every request, the paused/read-only bits of the loaded topic, the suspended accounts, me/fnd attachments, seqid/lastID/messages of sys",
+        rule="seeded random histories over one group topic plus me/fnd/sys: authors = owner, members, muted, write-less (want or given without W), banned, removed, never subscribed; publishes preceded by subscribe/set-sub/del-sub/leave histories (arbitrary mode strings) with Fail k / Crash k at every adapter-call position of the permission requests, unload/restart; the owner's {del topic} held open inside store.Topics.Delete (memverif call hook) with publishes dispatched meanwhile; suspension/resumption (with Fail/Crash on its store calls) of accounts that are at once a plain member of the group topic, a party of one or two real peer-to-peer topics (assorted modes, with and without W) and a subscriber of sys, or the owner, or a bystander, followed by publishes to the group topic, the p2p topics and sys; reloads after a suspension, both parties suspended and one resumed; publishes to me/fnd (attached or not) and sys (never attached; with and without subscribers); non-trivial = at least one accepted mutating request",
+        trusted=["projection compared for C03: every frame of a publish request (group topic, me, fnd, sys), the stored rows and the cached modes/lastID after every request, the paused/read-only bits of the loaded group topic, of every p2p topic, of sys and of every loaded me/fnd topic, cached modes / attached sessions / seqid / lastID / messages of every p2p topic, the suspended accounts, me/fnd attachments, seqid/lastID/messages/subscribers of sys",
+                 "read-only-follows-suspension takes the account states from the users table and the membership from the topic's cached perUser before the request; the read-only bit itself is read from Topic.status at quiescence",
+                 "p2p topics are created with both subscription rows by store.Topics.CreateP2P at set-up (initTopicP2P case 4); the subscribers of sys are rows created at set-up followed by a reload of sys; both are removed / unloaded at the end of the scenario",
                  "the monitor takes the STORED subscription row as the definition of 'currently subscribed with W in both modes'; a failure of the iff is filed under a known finding only if the author's cached mode differs from the stored one AND one of the two named triggers hit that user since the topic was loaded (not-attached {set sub} of his own; faulted ownership-transfer request)",
                  "harness/overlay/server/zz_verif_c03x_test.go: the {del topic} of the owner is held inside adapter.TopicDelete by a memverif call hook (db/memverif/zz_hook.go) while publishes are dispatched and awaited; {acc status=susp} is sent by a root session; the driver's sessions are not in the session store, so suspension does not evict them (eviction on suspension and login refusal are C11's)",
                  "topic deletion is modelled for hub.topicUnreg case 1.1.1 only (owner, topic loaded, hard); other {del topic} requests are not issued"],
-        counts={"quick": 560, "thorough": 5000})
+        counts={"quick": 560, "thorough": 5000}, extra_cov=extra_cov)
